@@ -14,6 +14,7 @@ import (
 	"github.com/llir/llvm/ir/enum"
 	"github.com/llir/llvm/ir/metadata"
 	"github.com/llir/llvm/ir/types"
+	"github.com/llir/llvm/ir/value"
 
 	"verif/harness/mbt"
 )
@@ -24,7 +25,14 @@ type subject struct {
 	Origin string // "file" | "api" | "text"
 	M      *ir.Module
 	Str    string // String()
-	Chunks []int  // sizes of the Write calls of a never-failing run
+	Chunks []int  // sizes of the Write calls of a never-failing run (writer with io.Writer only)
+	// ChunksBy[ifs]: sizes of the calls (through any method) of the first never-failing run to a writer
+	// with the optional interfaces ifs
+	ChunksBy [ifAll + 1][]int
+	// Large: a generated module with prints of very different sizes (1 byte ... > 1 MiB); MinFuncs are
+	// the text sizes its functions must exceed
+	Large    bool
+	MinFuncs []int
 }
 
 // sections reports which sections of Module.WriteTo the module exercises.
@@ -247,6 +255,85 @@ func apiBig(rng *rand.Rand, nf int) *ir.Module {
 	return m
 }
 
+// apiLarge builds a module whose functions have texts of very different sizes: for every entry of
+// minBytes a function whose printed definition is longer than that many bytes (and shorter than about
+// 1.25 times as many), between small functions, followed by an attribute group and metadata (so
+// that prints follow the large ones).  Shapes are random (seeded): several blocks, named and unnamed
+// values, loads, stores, arithmetic, calls.
+func apiLarge(rng *rand.Rand, minBytes []int) *ir.Module {
+	m := ir.NewModule()
+	m.SourceFilename = "large.c"
+	i32 := types.I32
+	var globals []*ir.Global
+	for i := 0; i < 4; i++ {
+		globals = append(globals, m.NewGlobalDef(fmt.Sprintf("g%d", i), constant.NewInt(i32, int64(rng.Intn(1000)))))
+	}
+	attr := &ir.AttrGroupDef{ID: 0, FuncAttrs: []ir.FuncAttribute{enum.FuncAttrNoUnwind}}
+	m.AttrGroupDefs = append(m.AttrGroupDefs, attr)
+	var prev *ir.Func
+	grow := func(f *ir.Func, b *ir.Block, acc value.Value, n int) (*ir.Block, value.Value) {
+		for ; n > 0; n-- {
+			switch rng.Intn(6) {
+			case 0:
+				acc = b.NewAdd(acc, constant.NewInt(i32, int64(rng.Intn(99999))))
+			case 1:
+				acc = b.NewMul(acc, f.Params[rng.Intn(2)])
+			case 2:
+				b.NewStore(acc, globals[rng.Intn(len(globals))])
+			case 3:
+				acc = b.NewXor(acc, b.NewLoad(i32, globals[rng.Intn(len(globals))]))
+			case 4:
+				if prev != nil {
+					acc = b.NewCall(prev, acc, f.Params[1])
+				} else {
+					acc = b.NewSub(acc, f.Params[0])
+				}
+			default: // a new block, named or not
+				name := ""
+				if rng.Intn(2) == 0 {
+					name = fmt.Sprintf("bb%d", len(f.Blocks))
+				}
+				nb := f.NewBlock(name)
+				b.NewBr(nb)
+				b = nb
+			}
+		}
+		return b, acc
+	}
+	newFunc := func(name string, min int) {
+		f := m.NewFunc(name, i32, ir.NewParam("", i32), ir.NewParam("y", i32))
+		f.FuncAttrs = append(f.FuncAttrs, attr)
+		b := f.NewBlock("")
+		var acc value.Value = b.NewAdd(f.Params[0], f.Params[1])
+		b, acc = grow(f, b, acc, 8)
+		if min > 0 {
+			// about 27 bytes per instruction; grow in steps and measure
+			b, acc = grow(f, b, acc, min/27)
+			for {
+				ret := b.NewRet(acc)
+				if n := len(f.LLString()); n > min+min/64 {
+					break
+				}
+				b.Term = nil
+				_ = ret
+				b, acc = grow(f, b, acc, 16+min/400)
+			}
+		} else {
+			b.NewRet(acc)
+		}
+		prev = f
+	}
+	newFunc("first", 0)
+	for i, min := range minBytes {
+		newFunc(fmt.Sprintf("big%d", i), min)
+		newFunc(fmt.Sprintf("after%d", i), 0)
+	}
+	md := &metadata.Tuple{MetadataID: -1, Fields: []metadata.Field{&metadata.String{Value: "tail"}}}
+	m.MetadataDefs = append(m.MetadataDefs, md)
+	m.NamedMetadataDefs["tail"] = &metadata.NamedDef{Name: "tail", Nodes: []metadata.Node{md}}
+	return m
+}
+
 // corpus assembles the modules of a run.
 func corpus(tier string, rng *rand.Rand) (subs []*subject, rejected []string) {
 	subs, rejected = parsedFiles()
@@ -274,5 +361,14 @@ func corpus(tier string, rng *rand.Rand) (subs []*subject, rejected []string) {
 		nf = 64
 	}
 	add(fmt.Sprintf("api:big(%d funcs)", nf), "api", apiBig(rng, nf))
+	// prints of very different sizes: function texts beyond 32 KiB, 64 KiB (and 128 KiB), 1 MiB
+	large := func(name string, min ...int) {
+		subs = append(subs, &subject{Name: name, Origin: "api", M: apiLarge(rng, min), Large: true, MinFuncs: min})
+	}
+	large("api:large(funcs > 32 KiB, > 64 KiB)", 32<<10, 64<<10)
+	if tier == "thorough" {
+		large("api:large(funcs > 128 KiB, > 40 KiB)", 128<<10, 40<<10)
+	}
+	large("api:huge(func > 1 MiB)", 1<<20)
 	return subs, rejected
 }
